@@ -779,3 +779,57 @@ def subscribers_spec(rep, rule, func, site):
               'else non-None results kept in subscription order'
               if not problems else {'problems': sorted(set(problems))[:4]},
               construct='table', node=func)
+
+
+# ---------------------------------------------------------------------------
+# fetch order (Python twin of C11 B5)
+
+_INERT = ('len', 'isinstance')
+
+
+def fetch_order_spec(rep, rule, func, site):
+    """Between fetching a cache dictionary and probing it nothing may run that
+    can call back into Python code of the application (iterating `required`,
+    `providedBy(object)`): such code can change the registry, `changed()`
+    then clears the *outer* dictionary, and the dictionary already in hand is
+    a detached one that still answers with the old entry."""
+    problems = []
+    n = 0
+    for ps in normal(summaries(func)):
+        probes = [i for i, e in enumerate(ps.events) if e.kind == 'call' and
+                  isinstance(e.r.func, ast.Attribute) and e.r.func.attr == 'get'
+                  and len(e.r.args) == 2 and nt(e.r.args[1]) == '_not_in_mapping']
+        for ip in probes:
+            cache = nt(ps.events[ip].r.func.value)
+            fetch = [i for i, e in enumerate(ps.events[:ip]) if e.kind == 'call'
+                     and nt(e.r) == cache]
+            if not fetch:
+                # created on this path: {} stored into the outer dictionary
+                fetch = [i for i, e in enumerate(ps.events[:ip]) if e.kind == 'store'
+                         and nt(e.val) == cache]
+            if not fetch:
+                problems.append('probe of `%s`: fetch not found' % cache[:50])
+                continue
+            n += 1
+            # the earliest event that produced the dictionary in hand
+            first = fetch[0]
+            if cache.startswith('self._getcache('):
+                first = fetch[-1]
+            def inert(c):
+                if dotted(c.func) in _INERT:
+                    return True
+                # tuple(<a tuple>) returns its argument
+                return dotted(c.func) == 'tuple' and len(c.args) == 1 and \
+                    isinstance(c.args[0], ast.Call) and dotted(c.args[0].func) == 'tuple'
+            between = [e for e in ps.events[first + 1:ip] if e.kind == 'call' and
+                       not inert(e.r) and nt(e.r) != cache]
+            if between:
+                problems.append('`%s` runs between fetching the cache and probing it'
+                                % nt(between[0].r)[:60])
+    if not n:
+        problems.append('no cache probe found')
+    rep.check(rule, site, not problems,
+              'nothing that can run application code (resolving `required`, '
+              'providedBy(object)) comes between fetching the cache dictionary and '
+              'probing it (%d probes)' % n if not problems else
+              {'problems': sorted(set(problems))[:3]}, construct='fetch-order', node=func)
